@@ -133,9 +133,13 @@ fn direct(ctx: &Ctx, res: &mut PartResult, depth: usize, mask_i: usize, timeout:
         let r = Real { reg: Registry::new(GenerationalStorage::new(AtomicStorage)), rec: Recency::new(clock, mask, if timeout { Some(Duration::from_nanos(T)) } else { None }), mock };
         let mut ms: Vec<MState> = vec![MState::default(); 4];
         let mut now = 0u64;
-        for (i, o) in seq.iter().enumerate() {
+        // every sequence is followed by one more observation of everything (what the next scrape would do)
+        let mut with_final: Vec<usize> = seq.clone();
+        with_final.push(alpha.len() - 1);
+        for (i, o) in with_final.iter().enumerate() {
             transitions += 1;
             let op = alpha[*o];
+            let i = i.min(seq.len() - 1);
             let mut bad: Option<(String, String)> = None;
             let mut check_obs = |mi: usize, ms: &mut Vec<MState>, bad: &mut Option<(String, String)>| {
                 let covered = timeout && mask.matches(mk(METRICS[mi].0));
